@@ -9,7 +9,7 @@ from dataflows.base.schema_validator import ValidationError
 from datapackage import Resource
 from tableschema.exceptions import CastError
 
-from .. import canon, fast, stepcorr as S  # noqa: F401
+from .. import pycorr, canon, fast, stepcorr as S  # noqa: F401
 from ..common import quiet
 
 import decimal as _dec
@@ -305,6 +305,7 @@ def run(ctx):
                 o = rep.oracle_failures[-1]
                 return {'signature': o['signature'], 'case': o['case'], 'detail': o['detail']}
         return None
+    pycorr.run(ctx)
     return ctx.finish(search=search)
 
 
